@@ -1006,6 +1006,11 @@ def _worker_synth(args):
       stats["synthetic_ok"] += 1
       if real.count(">") >= 2:
         nontriv.add(hashlib.blake2b(line.encode(), digest_size=8).hexdigest())
+    if model == "err build Unsupported":
+      # the one corner the model refuses (Opcodes.resolveTarget: a pre-set target that points at an op elided by the
+      # 3.11 rule — no compiler output has it): not compared, counted
+      stats["synthetic_outside_model(pre-set target elided)"] += 1
+      continue
     if real != model:
       mism.append({"kind": "synthetic-stream", "case": {"ver": c[0], "with_pop": c[1], "items": c[2], "entries": c[3]},
                    "real": real[:1500], "model": model[:1500]})
